@@ -343,8 +343,9 @@ def validate(prog, cj, model, shapes, opts: Options, ref_fn=None, pre=None) -> d
         if g:
             mdt = onnx_sem.np_dtype_of(g[0].type.tensor_type.elem_type)
             feeds[k] = T(mdt, v.a) if S.kind_of(mdt) == v.kind else v
-    # ---- element type of every output: same class (bool / integer / float) as the JAX result, and no
-    # double-precision float where JAX (32-bit mode) returns float32; decided on ORT, not on annotations
+    # ---- element type of every output: same class (bool / integer / float) as the JAX result; decided
+    # on ORT, not on annotations.  (A float64 output where JAX returns float32 carries the same values:
+    # that is C09's subject - "float outputs are float32" with the flag off - not C01's.)
     if opts.replay:
         declared = [onnx_sem.np_dtype_of(g.type.tensor_type.elem_type) if g.type.tensor_type.elem_type else None for g in model.graph.output]
         javals = [np.dtype(v.aval.dtype) for v in cj.jaxpr.outvars]
@@ -353,7 +354,7 @@ def validate(prog, cj, model, shapes, opts: Options, ref_fn=None, pre=None) -> d
                 if od is None:
                     continue
                 ko, kj = S.kind_of(od), S.kind_of(jd)
-                if ko != kj or (not x64 and ko == "f" and np.dtype(od).itemsize != jd.itemsize):
+                if ko != kj:
                     differs, info = replay_concrete(prog, cj, model, _test_vectors(prog, shapes, dtypes, True)[0], pos_names)
                     if differs and "element type" in str(info.get("why")):
                         out.update(status="violation", kind="dtype", reason=f"output {i}: model element type {od}, JAX {jd}", witness=info)
@@ -600,9 +601,7 @@ def replay_concrete(prog, cj, model, arrays, pos_names):
         if o.shape != j.shape:
             info["why"] = f"output {i} shape {o.shape} vs {j.shape}"
             return True, info
-        if (o.dtype.kind in "iu") != (j.dtype.kind in "iu") or (o.dtype.kind == "b") != (j.dtype.kind == "b") or (
-            not prog.x64 and j.dtype.kind == "f" and o.dtype.itemsize != j.dtype.itemsize
-        ):
+        if (o.dtype.kind in "iu") != (j.dtype.kind in "iu") or (o.dtype.kind == "b") != (j.dtype.kind == "b"):
             info["why"] = f"output {i} element type: model {o.dtype}, JAX {j.dtype}"
             return True, info
         if j.dtype.kind in "biu":
@@ -640,8 +639,25 @@ def replay_concrete(prog, cj, model, arrays, pos_names):
                                 deltas = []
                                 for sgn in (+1, -1):
                                     pert = []
+                                    clipped_side = False
                                     for ai, a in enumerate(arrays):
                                         a = np.asarray(a)
+                                        if a.dtype.kind in "iu" and a.size:
+                                            # an integer beyond the float mantissa is rounded when JAX converts it:
+                                            # that rounding is part of JAX's own evaluation error as well
+                                            ft = np.float64 if strict64 else np.float32
+                                            step = np.spacing(np.abs(a).astype(ft)).astype(np.float64)
+                                            step = np.where(step > 1, step, 0).astype(np.int64)
+                                            if not step.any():
+                                                pert.append(a)
+                                                continue
+                                            d = np.full(a.shape, sgn, dtype=np.int64) if pat is None else sgn * pat[ai]
+                                            ii = np.iinfo(a.dtype)
+                                            moved = a.astype(np.int64) + d * step
+                                            if np.any((moved < ii.min) | (moved > ii.max)):
+                                                clipped_side = True  # edge of the integer range: only the other side counts
+                                            pert.append(np.clip(moved, ii.min, ii.max).astype(a.dtype))
+                                            continue
                                         if a.dtype.kind != "f":
                                             pert.append(a)
                                             continue
@@ -654,7 +670,8 @@ def replay_concrete(prog, cj, model, arrays, pos_names):
                                             q = np.transpose(q, (0, 3, 1, 2))
                                         if q.shape == r64.shape:
                                             with np.errstate(all="ignore"):
-                                                deltas.append(np.nan_to_num(np.abs(q - r64), nan=np.inf))
+                                                dd = np.nan_to_num(np.abs(q - r64), nan=np.inf)
+                                            deltas.append(np.full_like(dd, np.inf) if clipped_side else dd)
                                 if len(deltas) == 2:
                                     own = np.maximum(own, np.minimum(deltas[0], deltas[1]))
                             slack = 1e-12 if strict64 else 1e-5
